@@ -260,6 +260,9 @@ def desugar_std(d):
     Ok(v), None => Err(e) };  r.ok()  ->  match r { Ok(v) => Some(v), Err(_) => None }."""
     types = d["types"]
     n = 0
+    bodies_by_path = {}
+    for j in d["bodies"]:
+        bodies_by_path.setdefault(j["path"], j)
     for j in d["bodies"]:
         m = j.get("mir")
         if not m:
@@ -320,6 +323,121 @@ def desugar_std(d):
                     m["blocks"].append(blk([_agg(dest, types, "None", [], line)]))
                     b["term"] = {"k": "switch", "discr": {"move": {"l": dl, "p": [], "ty": ity}}, "dty": ity, "targets": [[ov["discr"], nb]], "otherwise": nb + 1,
                                  "line": line, "exp": False, "was_call": p}
+            elif p in ("std::result::Result::<T, E>::map", "std::result::Result::<T, E>::map_err", "std::option::Option::<T>::map") and len(t["args"]) == 2:
+                # r.map(|v| f(v)) with a closure of this crate  ->  match r { Ok(v) => Ok(closure(v)), Err(e) => Err(e) }  (the
+                # call of the closure is then inlined like any other closure call); likewise map_err and Option::map
+                src, fop = t["args"]
+                spl = src.get("move") or src.get("copy")
+                if spl is None:
+                    continue
+                st = types[spl["ty"]] if isinstance(spl.get("ty"), int) else {}
+                if not st.get("variants"):
+                    continue
+                cl = _closure_of_operand(j, types, fop)
+                if cl is None or cl[0] not in bodies_by_path or cl[0] == j["path"]:
+                    continue
+                ckm = bodies_by_path[cl[0]].get("mir")
+                if not ckm or ckm.get("arg_count") != 2:
+                    continue
+                on, other = ("Err", "Ok") if p.endswith("map_err") else ("Some", "None") if "Option" in p else ("Ok", "Err")
+                sv = [x for x in st["variants"] if x["name"] == on]
+                so = [x for x in st["variants"] if x["name"] == other]
+                dv = [x for x in dt["variants"] if x["name"] == on]
+                if not sv or not so or not dv or len(sv[0]["fields"]) != 1 or len(dv[0]["fields"]) != 1:
+                    continue
+                sv, so, dv = sv[0], so[0], dv[0]
+                ity = None
+                for i, ty in enumerate(types):
+                    if ty.get("k") == "int" and ty.get("s") == "isize":
+                        ity = i
+                if ity is None:
+                    continue
+                in_ty, out_ty = sv["fields"][0]["ty"], dv["fields"][0]["ty"]
+                tup_ty = None
+                for i, ty in enumerate(types):
+                    if ty.get("k") == "tuple" and ty.get("elems") == [in_ty]:
+                        tup_ty = i
+                if tup_ty is None:
+                    types.append({"s": "(%s,)" % types[in_ty].get("s", "?"), "k": "tuple", "elems": [in_ty]})
+                    tup_ty = len(types) - 1
+                dl, tl, rl = len(m["locals"]), len(m["locals"]) + 1, len(m["locals"]) + 2
+                m["locals"] += [{"ty": ity, "mut": True}, {"ty": tup_ty, "mut": True}, {"ty": out_ty, "mut": True}]
+                b["stmts"].append({"k": "assign", "place": {"l": dl, "p": [], "ty": ity}, "rv": {"k": "discr", "place": spl}, "line": line, "desugared": True})
+                inner = {"move": {"l": spl["l"], "p": spl["p"] + [{"downcast": sv["discr"], "name": on}, {"field": 0, "name": "0", "ty": in_ty}], "ty": in_ty}}
+                call_blk = {"stmts": [{"k": "assign", "place": {"l": tl, "p": [], "ty": tup_ty}, "line": line, "desugared": True,
+                                       "rv": {"k": "agg", "ak": "tuple", "ops": [inner]}}],
+                            "term": {"k": "call", "callee": {"path": "std::ops::FnOnce::call_once", "krate": "core", "local": False, "args": [], "full": "FnOnce::call_once",
+                                                             "trait": "std::ops::FnOnce", "method": "call_once"},
+                                     "args": [fop, {"move": {"l": tl, "p": [], "ty": tup_ty}}], "dest": {"l": rl, "p": [], "ty": out_ty}, "target": nb + 1,
+                                     "fn_line": t.get("fn_line"), "line": line, "exp": False},
+                            "desugared": True}
+                m["blocks"].append(call_blk)
+                m["blocks"].append(blk([_agg(dest, types, on, [{"move": {"l": rl, "p": [], "ty": out_ty}}], line)]))
+                if so["fields"]:
+                    oth = {"move": {"l": spl["l"], "p": spl["p"] + [{"downcast": so["discr"], "name": other}, {"field": 0, "name": "0", "ty": so["fields"][0]["ty"]}],
+                                    "ty": so["fields"][0]["ty"]}}
+                    m["blocks"].append(blk([_agg(dest, types, other, [oth], line)]))
+                else:
+                    m["blocks"].append(blk([_agg(dest, types, other, [], line)]))
+                b["term"] = {"k": "switch", "discr": {"move": {"l": dl, "p": [], "ty": ity}}, "dty": ity, "targets": [[sv["discr"], nb]], "otherwise": nb + 2,
+                             "line": line, "exp": False, "was_call": p}
+            elif p == "std::option::Option::<T>::filter" and len(t["args"]) == 2:
+                # o.filter(|v| p(v)) with a closure of this crate  ->  match o { Some(v) if closure(&v) => Some(v), _ => None }
+                src, fop = t["args"]
+                spl = src.get("move") or src.get("copy")
+                if spl is None:
+                    continue
+                st = types[spl["ty"]] if isinstance(spl.get("ty"), int) else {}
+                cl = _closure_of_operand(j, types, fop)
+                if not st.get("variants") or cl is None or cl[0] not in bodies_by_path or cl[0] == j["path"]:
+                    continue
+                ckm = bodies_by_path[cl[0]].get("mir")
+                if not ckm or ckm.get("arg_count") != 2:
+                    continue
+                sv = [x for x in st["variants"] if x["name"] == "Some"]
+                if not sv or len(sv[0]["fields"]) != 1:
+                    continue
+                sv = sv[0]
+                ity = bty = None
+                for i, ty in enumerate(types):
+                    if ty.get("k") == "int" and ty.get("s") == "isize":
+                        ity = i
+                    if ty.get("k") == "bool":
+                        bty = i
+                if ity is None or bty is None:
+                    continue
+                in_ty = sv["fields"][0]["ty"]
+                ref_ty = ckm["locals"][2]["ty"]
+                if types[ref_ty].get("k") != "ref" or types[ref_ty].get("to") != in_ty:
+                    continue
+                tup_ty = None
+                for i, ty in enumerate(types):
+                    if ty.get("k") == "tuple" and ty.get("elems") == [ref_ty]:
+                        tup_ty = i
+                if tup_ty is None:
+                    types.append({"s": "(%s,)" % types[ref_ty].get("s", "?"), "k": "tuple", "elems": [ref_ty]})
+                    tup_ty = len(types) - 1
+                dl, rfl, tl, rl = (len(m["locals"]) + k_ for k_ in range(4))
+                m["locals"] += [{"ty": ity, "mut": True}, {"ty": ref_ty, "mut": True}, {"ty": tup_ty, "mut": True}, {"ty": bty, "mut": True}]
+                b["stmts"].append({"k": "assign", "place": {"l": dl, "p": [], "ty": ity}, "rv": {"k": "discr", "place": spl}, "line": line, "desugared": True})
+                inner_pl = {"l": spl["l"], "p": spl["p"] + [{"downcast": sv["discr"], "name": "Some"}, {"field": 0, "name": "0", "ty": in_ty}], "ty": in_ty}
+                call_blk = {"stmts": [{"k": "assign", "place": {"l": rfl, "p": [], "ty": ref_ty}, "line": line, "desugared": True,
+                                       "rv": {"k": "ref", "mut": False, "bk": "Shared", "place": inner_pl}},
+                                      {"k": "assign", "place": {"l": tl, "p": [], "ty": tup_ty}, "line": line, "desugared": True,
+                                       "rv": {"k": "agg", "ak": "tuple", "ops": [{"move": {"l": rfl, "p": [], "ty": ref_ty}}]}}],
+                            "term": {"k": "call", "callee": {"path": "std::ops::FnOnce::call_once", "krate": "core", "local": False, "args": [], "full": "FnOnce::call_once",
+                                                             "trait": "std::ops::FnOnce", "method": "call_once"},
+                                     "args": [fop, {"move": {"l": tl, "p": [], "ty": tup_ty}}], "dest": {"l": rl, "p": [], "ty": bty}, "target": nb + 1,
+                                     "fn_line": t.get("fn_line"), "line": line, "exp": False},
+                            "desugared": True}
+                m["blocks"].append(call_blk)                                                    # nb: call the predicate
+                m["blocks"].append({"stmts": [], "desugared": True,                             # nb+1: branch on it
+                                    "term": {"k": "switch", "discr": {"move": {"l": rl, "p": [], "ty": bty}}, "dty": bty, "targets": [[0, nb + 3]], "otherwise": nb + 2,
+                                             "line": line, "exp": False}})
+                m["blocks"].append(blk([_agg(dest, types, "Some", [{"move": inner_pl}], line)]))  # nb+2
+                m["blocks"].append(blk([_agg(dest, types, "None", [], line)]))                    # nb+3
+                b["term"] = {"k": "switch", "discr": {"move": {"l": dl, "p": [], "ty": ity}}, "dty": ity, "targets": [[sv["discr"], nb]], "otherwise": nb + 3,
+                             "line": line, "exp": False, "was_call": p}
             else:
                 continue
             touched = True
